@@ -33,8 +33,12 @@ def _name(x):
 
 def _polar_refs(e, skip=None):
     out = []
+    in_sizeof = set()
     for x in e.walk():
-        if x is skip:
+        if x.k == "UnaryExprOrTypeTraitExpr":
+            in_sizeof |= set(id(y) for y in x.walk())      # sizeof(min_value) is a capacity, not a bound
+    for x in e.walk():
+        if x is skip or id(x) in in_sizeof:
             continue
         if x.k == "MemberExpr" or (x.k == "DeclRefExpr" and x.get("dk") in ("local", "param")):
             p = pol(x.name)
